@@ -51,6 +51,25 @@ def gen_probe(root):
     open(os.path.join(root, "probes", "src", "main.rs"), "w").write("\n".join(lines) + "\n")
 
 
+BORROWED = "borrowed"
+
+
+def gen_borrowed(root):
+    """a second binary: payloads that are Send + Sync but borrow (`&'a u8`): every sync type must accept them.
+    A compile error in this file means an impl asks more than the payloads' own Send + Sync (e.g. 'static)."""
+    lines = ["#![allow(unused)]", "// property C16: a sync node, edge or graph can always be sent/shared when its payload types are Send + Sync;",
+             "// `&'a u8` is Send + Sync for every 'a, so each line below must compile", "fn need<T: Send + Sync>() {}", "fn borrowed<'a>(_x: &'a u8) {"]
+    for fl in FLS:
+        if not fl.startswith("sync_"):
+            continue
+        for ty in TYS:
+            lines.append(f"    need::<gdsl::{fl}::{ty}<&'a u8, &'a u8, &'a u8>>();")
+    lines += ["}", "fn main() {", "    let v = 7u8;", "    borrowed(&v);", "    println!(\"borrowed ok\");", "}"]
+    os.makedirs(os.path.join(root, "probes", "src", "bin"), exist_ok=True)
+    open(os.path.join(root, "probes", "src", "bin", "borrowed.rs"), "w").write("\n".join(lines) + "\n")
+    return lines
+
+
 def witness_program(fl, ty, k, n, e, trait, should_hold):
     t = f"gdsl::{fl}::{ty}<{WIT[k]}, {WIT[n]}, {WIT[e]}>"
     body = PRELUDE.split("struct Probe")[0]
@@ -76,12 +95,19 @@ def custom(C, pid, tier, seed):
         proofs = C.discharge(pid, spec) if translated else {"obligations": len(spec["theorems"]), "discharged": 0, "failed": [(t, "translation failed") for _, t in spec["theorems"]], "axioms": {}, "log": ""}
         rc_d, out_d, _ = C.sh(["lake", "build", "traits_driver"], cwd=C.LEAN, timeout=1800) if translated else (1, "", 0)
         gen_probe(root)
+        borrowed_src = gen_borrowed(root)
+        borrowed_bad = None
         envs = [("hook-on", dict(C.ENV, RUSTFLAGS="--cfg gdsl_verif"))]
         if tier == "thorough":
             envs.append(("hook-off", dict(C.ENV)))
         tables = {}
         for name, env in envs:
             rc, out, dt = C.sh(["cargo", "build", "--offline"], cwd=os.path.join(root, "probes"), timeout=1800, env=env)
+            if rc != 0 and "src/bin/borrowed.rs" in out:
+                # the table binary may still build: rustc rejects a borrowed Send + Sync payload
+                errs = [l for l in out.split("\n") if l.startswith("error")][:3]
+                borrowed_bad = "rustc rejects a sync type over borrowed Send + Sync payloads (`&'a u8`): " + " | ".join(errs)
+                rc, out, dt = C.sh(["cargo", "build", "--offline", "--bin", "gdsl-verif-probes"], cwd=os.path.join(root, "probes"), timeout=1800, env=env)
             if rc != 0:
                 broken.append(("correspondence", f"probe crate does not compile ({name}): " + " | ".join(l for l in out.split("\n") if l.startswith("error"))[:600]))
                 continue
@@ -139,6 +165,11 @@ def custom(C, pid, tier, seed):
             path = C.write_replay(pid, "oracle", f"rustc {'rejects' if want else 'accepts'} `gdsl::{fl}::{ty}<K: {k}, N: {n}, E: {e}>: {trait}` ({name}); {len(bad_rows)} wrong rows in total", prog.split("\n"), {"flavour": fl, "seed": seed, "tier": tier})
             os.replace(path, path[:-5] + ".rs")
             violations.append((path[:-5] + ".rs", ""))
+    if borrowed_bad:
+        path = C.write_replay(pid, "oracle", borrowed_bad, borrowed_src, {"seed": seed, "tier": tier})
+        os.replace(path, path[:-5] + ".rs")
+        violations.append((path[:-5] + ".rs", ""))
+        bad_rows.append(("sync_*", "*", BORROWED, BORROWED, BORROWED, "Send+Sync", True, "hook-on"))
     if broken and not violations and not seen:
         path = C.write_replay(pid, broken[0][0], "; ".join(w for _, w in broken), ["-- " + w[:300] for _, w in broken], {"seed": seed, "tier": tier})
         violations.append((path, " no-failing-input-found"))
@@ -147,7 +178,7 @@ def custom(C, pid, tier, seed):
                 "trusted_base": C.P.TRUSTED_BASE + ["translator tools/translate_traits.py (type-grammar parser; fails loudly on unknown constructs)", "transcription of std's auto-trait rules for Arc/Weak/Rc/RefCell/RwLock/Vec/HashMap/tuples (validated against rustc by the probe table)", "Rust's meaning of Send/Sync (the 'no data race' consequence is not modelled)"],
                 "theorems": [t for _, t in spec.get("theorems", [])], "axioms": proofs["axioms"],
                 "evaluations": sum(len(t) for t in tables.values()) * 2, "distinct_nontrivial": len(rows) * 2,
-                "rule": "rows = 4 flavours x {Node, Edge, Graph} x 4^3 payload witnesses (Send+Sync / Send only = PhantomData<Cell> / Sync only = PhantomData<MutexGuard> / neither = PhantomData<Rc>) x {Send, Sync}; each row is one query to rustc's trait solver, read at run time through an inherent-const probe; all distinct, all non-trivial (a generic obligation each).",
+                "rule": "plus one must-compile program with borrowed (non-'static) Send + Sync payloads for every sync type; rows = 4 flavours x {Node, Edge, Graph} x 4^3 payload witnesses (Send+Sync / Send only = PhantomData<Cell> / Sync only = PhantomData<MutexGuard> / neither = PhantomData<Rc>) x {Send, Sync}; each row is one query to rustc's trait solver, read at run time through an inherent-const probe; all distinct, all non-trivial (a generic obligation each).",
                 "samples": rows[:3] + rows[200:203], "traces_validated_against_impl": n_rows, "exhaustive": True,
                 "correspondence_mismatches": len(mism), "oracle_failures": len(bad_rows), "broken_obligations": [w for _, w in broken],
                 "probe_builds": list(tables.keys())})
